@@ -15,11 +15,17 @@ CONSTANTS
   StrideOff = 0
   ReorderMode = "bylayout"
   ZeroGuard = "guarded"
+  WSNum = 1
+  WSDen = 1024
+  WScale <- MCWScale
+  SummarySource = "gathered"
   Gens = {1,2,3}
   Ordered = FALSE
   Export = FALSE
 INVARIANT EachSampleOnce
 INVARIANT TraceInSampleOrder
 INVARIANT SummariesEqualSerial
+INVARIANT SummaryMeanIsGlobal
+INVARIANT NoRankFails
 CONSTRAINT Emit
 CHECK_DEADLOCK FALSE
